@@ -43,7 +43,8 @@ def layout():
     }
 
 
-INPUTS = {"K": "kdir/kfile.cmake", "D": "dtree", "D2": "other", "T": "tfile.cmake", "E": "empty.cmake"}
+INPUTS = {"K": "kdir/kfile.cmake", "D": "dtree", "D2": "other", "T": "tfile.cmake", "E": "empty.cmake",
+          "DS": "dtree/sub"}       # DS: a sub-directory of D given as an input of its own
 
 CLI = ("import sys; sys.path.insert(0, %r); import warnings; warnings.filterwarnings('ignore'); import cminx; "
        "cminx.main(sys.argv[1:])")
@@ -273,7 +274,7 @@ def run(ctx):
     if R != R2:
         ctx.violation({"kind": "reference"}, compare(R2, R, "reference under hash seed 4242"), cls="bytes hash-seed")
     R = {"default": R, "strip": reference("0", "strip"), "excl": reference("0", "excl"), "follow": reference("0", "follow")}
-    names = list(INPUTS)
+    names = [x for x in INPUTS if x != "DS"]
     n = 3 if quick else 4
     hjobs = []
     for k in range(1, n + 1):
@@ -289,6 +290,10 @@ def run(ctx):
                     hjobs.append((list(h), mode, "work", "excl"))
                 if k == 2:
                     hjobs.append((list(h), mode, "work", "follow"))
+    for mode in ("one-call", "successive"):
+        for cfg in ("default", "follow", "strip"):
+            for h in (["DS", "D"], ["D", "DS"], ["DS", "D", "DS"], ["DS", "K", "D"]):
+                hjobs.append((h, mode, "work", cfg))
     ctx.sweep(functools.partial(run_history, RR=R), hjobs, space="run histories within one process", selftest=3, isolate=False)
     ejobs = []
     for x in names:
